@@ -1,4 +1,7 @@
 ------------------------------- MODULE MC_C20 -------------------------------
-EXTENDS WfFfi
+EXTENDS WfFfi, Json
+(* failure texts are garbage tokens appended to a filter; the engine echoes the offending line in its   *)
+(* error message, so a NUL byte in the text reaches the last-error string and must be substituted       *)
 TextsDef == {<<101>>, <<101, 0, 102>>, <<0>>}
+Emit == (calls = MaxCalls) => PrintT(<<"REPLAY", ToJson([ev |-> "ffiseq", hist |-> hist])>>)
 =============================================================================
